@@ -339,7 +339,7 @@ def invariant_pairs(ctx):
     out = []
     init = ctx.fn('RangeStatement::<P>::init', required=False)
     if init is not None:
-        from .common import guard_table
+        from .common import guard_table, unconditional
         # parameter index -> the field of the constructed statement that stores that parameter (not the parameter's name)
         names = {}
         rt = ctx.eng.return_term(init)
@@ -352,6 +352,8 @@ def invariant_pairs(ctx):
                     if y.tag == 'param' and y[1] == init.key:
                         names[y[2]] = fname
         for row in guard_table(ctx, init):
+            if not unconditional(row):
+                continue            # a comparison made only on some paths (`!a.is_empty() && a.len() != b.len()`) is not an invariant
             for a in row['atoms']:
                 if a[0] == 'cmp' and a[1] == 'Eq' and a[2].startswith('len(p') and a[3].startswith('len(p') and row['eff'] == 'dom':
                     i, j = int(a[2][5:-1]), int(a[3][5:-1])
